@@ -426,6 +426,8 @@ class Engine:
         s = s.strip()
         if s in ("true", "false"):
             return s == "true"
+        if s == "()":
+            return ("unit",)
         if len(s) >= 3 and s[0] == "'" and s[-1] == "'" and getattr(self, "chars_as_ints", False):
             body = s[1:-1]
             um = re.match(r"^\\u\{([0-9a-fA-F]+)\}$", body)
@@ -472,8 +474,8 @@ class Engine:
             if hasattr(c, "literal"):
                 return self.const(c.literal)
             return self.call_fn(c, [])
-        if not cands and re.match(r"^[A-Z]\w*$", s):
-            return ("enum", s, [])  # unit struct value
+        if not cands and re.match(r"^(?:\w+::)*[A-Z]\w*$", s) and not s.split("::")[-1].isupper():
+            return ("enum", s.split("::")[-1], [])  # unit struct value
         raise Unsupported("constant %s (%d candidates)" % (s, len(cands)))
 
     def operand(self, frame, s):
